@@ -1,7 +1,7 @@
 from common import *
 from bundlelib import *
 
-THEOREMS = ['C03.read_write', 'C03.read_write_b2', 'C03.index_is_row_major', 'C03.possibleKeyAt_index', 'C03.index_possibleKeyAt', 'C03.index_injective', 'C03.offsets_accounting']
+THEOREMS = ['C03.read_write', 'C03.read_write_b2', 'C03.read_write_b1_variants', 'C03.write_refuses_overlapping_variants', 'C03.write_refuses_incomplete_variants', 'C03.read_normal', 'C03.read_write_normal', 'C03.write_read_fixpoint', 'C03.index_is_row_major', 'C03.index_injective', 'C03.offsets_accounting']
 TRUSTED = ['Go stdlib net/url (Parse/String facts supplied by the harness oracle op oracle.burl), crypto/x509 (certificate parse), regexp, strconv (modelled, compared)']
 ASSUMPTIONS = ['format constraints the reader enforces and the writer does not (DESIGN 5, C03 D): exchange URLs without fragment/userinfo, valid UTF-8, re-parsing to themselves; status 100..999; ASCII header names not starting with ":" and distinct after lower-casing; ASCII values; b1 has a primary URL']
 RULE = ('bundles: versions b1/b2 x 0..4 exchanges x URL shapes (ports, escapes, queries, relative) x header maps x status 100..999 x body lengths around 23/24, 255/256, 65535/65536 x optional primary/manifest/signatures x b1 Variants sets '
@@ -46,6 +46,12 @@ def gen_bundles(rng, w, thorough):
         out.append(bundle(ver, b'https://example.com/', None, None, [exch(b'https://example.com/', 200, [(b':pseudo', [b'v'])], b'x')]))
         out.append(bundle(ver, b'https://example.com/', None, None, [exch(b'https://example.com/', 200, [(b'X-A', [b'caf\xc3\xa9'])], b'x')]))
         out.append(bundle(ver, b'https://example.com/', None, None, [exch(b'https://example.com/', 200, [(b'Foo', [b'1']), (b'foo', [b'2'])], b'x')]))
+        # names equal after case folding with IDENTICAL values, alone and among other fields, two and three spellings
+        for hs in ([(b'Content-Type', [b'text/html']), (b'content-type', [b'text/html'])],
+                   [(b'A', [b'1']), (b'Content-Type', [b'text/html']), (b'content-type', [b'text/html']), (b'Z', [b'2'])],
+                   [(b'X-K', [b'v']), (b'x-k', [b'v']), (b'X-k', [b'v'])],
+                   [(b'X-K', [b'v', b'w']), (b'x-k', [b'v', b'w'])], [(b'X-K', [b'v,w']), (b'x-k', [b'v', b'w'])], [(b'X-K', [b'']), (b'x-k', [b''])]):
+            out.append(bundle(ver, b'https://example.com/', None, None, [exch(b'https://example.com/', 200, hs, b'x'), exch(b'https://example.com/2', 200, [(b'Ok', [b'1'])], b'y')]))
         out.append(bundle(ver, b'https://example.com/', b'https://example.com/m', None, []))
         out.append(bundle(ver, b'relative/primary', None, None, []))
         out.append(bundle(ver, None, None, None, []) if ver == 'b2' else bundle(ver, b'', None, None, []))
